@@ -442,7 +442,7 @@ pub fn judge_acknowledged(p: &Program, ex: &Exec, cache: &Mutex<std::collections
     acks.sort_by_key(|a| a.0);
     let ob = Obligations { hists, acks, op_begin, ttl: p.cfg.ttl };
     let from = ex.setup_recs.last().map(|r| r.log_response).unwrap_or(0);
-    let opts = crash::CrashOpts { sector_tear: false, reopen_cycles: 0, nest: 0, now: ex.now, probe_auto_ts: false };
+    let opts = crash::CrashOpts { sector_tear: false, reopen_cycles: 0, nest: 0, now: ex.now, probe_auto_ts: false, continue_after: false };
     let ctx = hash64(&[p.name.as_bytes(), format!("{:?}{:?}", ob.hists, ob.acks).as_bytes()]);
     // identical device logs with identical obligations have identical verdicts: cache per execution
     let mut log_bytes: Vec<u8> = Vec::new();
